@@ -1,4 +1,5 @@
 import TracklibVerif.Model.Viterbi
+import TracklibVerif.Model.Hmm
 import TracklibVerif.Drv.Util
 /-! Driver handler for C09 (HMM.estimate / Viterbi decoding). Commands:
   decodeQ log <n> <P> <Q>        exact rationals; the tables hold what the user's P / Q return (logs)
@@ -6,7 +7,18 @@ import TracklibVerif.Drv.Util
                                  `-(log (v + 1e-300))` with the C library's `log`
   n = states per epoch `n0,n1,…`; P = observation table flattened epoch-major (`Σ n_k` entries);
   Q = transition table flattened as `for k, for m < n_k, for l < n_{k+1}`.
-  reply: `i0,i1,… c0,c1,…` (inferred state index and recorded hmm_cost per epoch), `err:index`, `err:value`. -/
+  reply: `i0,i1,… c0,c1,…` (inferred state index and recorded hmm_cost per epoch), `err:index`, `err:value`.
+
+  sess <N,L,R,YD> <features> <models> <steps>     a history of calls on tracks of `N` epochs (IEEE doubles)
+    the user functions are table look-ups: `S(track,k)` = the k-th label list of a model, `Q(s1,s2,k,track)` =
+    `QT[k][s1][s2]`, `P(s,y,k,track)` = `PT[k][s][code y]`, `code y` = the digits of the fields of `y` (a number
+    `0 ≤ c < R` is the digit `c`, any other number `0`, a state its label mod `R`, a Coords three digits) read as a
+    base-`R` number (first field = lowest digit), mod `YD`.  `L` = number of labels.
+    features = `name:c,c,…|…` (numbers)   models = `S/P/Q@…`, `S` = `l,l;e;l` (`e` = no candidate), `P`, `Q` flat
+    steps = `|`-separated: `new:h:log:mS:mQ:mP` `log:h:b` `setS:h:m` `setQ:h:m` `setP:h:m` `est:h:t:logarg:mode:names`
+            `obs:t:name:k:c` `mk:t:name:c,c,…` `copy:t`   (`h`, `t` = object / track numbers; `copy` appends a track)
+    reply = `<per est: status/hmm_inference/hmm_cost>|…#<per track: name:cells;…/positions>|…#<log flag per object>`,
+    a column is `-` when the track has no such feature, a cell is `n<bits>` or `s<label>`. -/
 namespace TV.Drv.C09
 open TV.Viterbi TV.Drv
 
@@ -47,8 +59,165 @@ def bigQ : Rat := (10 : Rat) ^ 300
 def bigF : Float := 1e300
 def epsF : Float := 1e-300
 
+/-! ### histories -/
+open TV.Hmm
+
+structure SModel where
+  S : List (List Nat)
+  P : List Float
+  Q : List Float
+
+structure SObj where
+  log : Bool
+  mS : Nat
+  mQ : Nat
+  mP : Nat
+
+structure Sess where
+  N : Nat
+  L : Nat
+  R : Nat
+  YD : Nat
+  models : Array SModel
+  tracks : Array (Trk Float)
+  objs : Array (Option SObj)
+  outs : Array String
+
+def numF : Num Float := { logf := Float.log, eps := epsF, big := bigF, zero := 0.0, idx := fun i => i.toFloat }
+
+/-- the digit the user's `P` reads from one cell -/
+def digit (R : Nat) : Cell Float → Nat
+  | .num v => if 0.0 ≤ v && v < R.toFloat && v == v.floor then v.toUInt64.toNat else 0
+  | .st s => s % R
+
+def digits (R : Nat) : List (ObsItem Float) → List Nat
+  | [] => []
+  | .cell c :: rest => digit R c :: digits R rest
+  | .coords x y z :: rest => digit R x :: digit R y :: digit R z :: digits R rest
+
+def codeOf (R YD : Nat) (y : List (ObsItem Float)) : Nat :=
+  ((digits R y).foldr (fun d acc => d + R * acc) 0) % YD
+
+def objOf (s : Sess) (o : SObj) : Option (Obj Float) :=
+  match s.models[o.mS]?, s.models[o.mQ]?, s.models[o.mP]? with
+  | some ms, some mq, some mp =>
+    some { S := fun _ k => ms.S.getD k []
+           Q := fun s1 s2 k _ => mq.Q.getD ((k * s.L + s1) * s.L + s2) 0.0
+           P := fun st y k _ => mp.P.getD ((k * s.L + st) * s.YD + codeOf s.R s.YD y) 0.0
+           log := o.log }
+  | _, _, _ => none
+
+def showCell : Cell Float → String
+  | .num v => "n" ++ showFloat v
+  | .st s => "s" ++ toString s
+
+def showCol (tr : Trk Float) (name : String) : String :=
+  match tr.col? name with
+  | none => "-"
+  | some c => joinWith "," (c.map showCell)
+
+def showErr : Option Err → String
+  | none => "ok"
+  | some .index => "err:index"
+  | some .value => "err:value"
+  | some .exit => "err:exit"
+  | some .unknownAF => "err:AnalyticalFeatureError"
+  | some .reservedAF => "err:AnalyticalFeatureError"
+  | some .emptyTrack => "err:AnalyticalFeatureError"
+  | some .unsupported => "unsupported"
+
+def showTrk (tr : Trk Float) : String :=
+  joinWith ";" (tr.cols.map (fun c => c.1 ++ ":" ++ joinWith "," (c.2.map showCell))) ++ "/" ++
+    joinWith "," (tr.pos.map (fun p => match p with | none => "-1" | some s => toString s))
+
+def bool? (s : String) : Option Bool := if s == "1" then some true else if s == "0" then some false else none
+
+def cells? (s : String) : Option (List (Cell Float)) := (floatList? s).map (·.map Cell.num)
+
+/-- one step; `none` = malformed or outside the model -/
+def step (s : Sess) (f : List String) : Option Sess :=
+  match f with
+  | ["new", h, lg, a, b, c] => do
+    let h ← h.toNat?; let lg ← bool? lg; let a ← a.toNat?; let b ← b.toNat?; let c ← c.toNat?
+    if h != s.objs.size || a ≥ s.models.size || b ≥ s.models.size || c ≥ s.models.size then none
+    else some { s with objs := s.objs.push (some { log := lg, mS := a, mQ := b, mP := c }) }
+  | ["log", h, lg] => do
+    let h ← h.toNat?; let lg ← bool? lg
+    let o ← (← s.objs[h]?)
+    some { s with objs := s.objs.set! h (some { o with log := lg }) }
+  | [cmd, h, m] =>
+    if cmd == "setS" || cmd == "setQ" || cmd == "setP" then do
+      let h ← h.toNat?; let m ← m.toNat?
+      let o ← (← s.objs[h]?)
+      if m ≥ s.models.size then none else
+      let o' := if cmd == "setS" then { o with mS := m } else if cmd == "setQ" then { o with mQ := m } else { o with mP := m }
+      some { s with objs := s.objs.set! h (some o') }
+    else none
+  | ["est", h, t, lg, mode, names] => do
+    let h ← h.toNat?; let t ← t.toNat?; let lg ← bool? lg; let mode ← mode.toNat?
+    let o ← (← s.objs[h]?)
+    let tr ← s.tracks[t]?
+    let ob ← objOf s o
+    let r := estimate numF ob tr (splitTok names ',') lg mode
+    if r.2.2 == some Err.unsupported then none else
+    let out := showErr r.2.2 ++ "/" ++ showCol r.2.1 "hmm_inference" ++ "/" ++ showCol r.2.1 "hmm_cost"
+    some { s with objs := s.objs.set! h (some { o with log := r.1.log }), tracks := s.tracks.set! t r.2.1,
+                  outs := s.outs.push out }
+  | ["obs", t, name, k, c] => do
+    let t ← t.toNat?; let k ← k.toNat?; let c ← float? c
+    let tr ← s.tracks[t]?
+    match tr.setObs name k (.num c) with
+    | .ok tr' => some { s with tracks := s.tracks.set! t tr' }
+    | .error _ => none
+  | ["mk", t, name, cs] => do
+    let t ← t.toNat?; let cs ← cells? cs
+    let tr ← s.tracks[t]?
+    match tr.createL name cs with
+    | .ok tr' => some { s with tracks := s.tracks.set! t tr' }
+    | .error _ => none
+  | ["copy", t] => do
+    let t ← t.toNat?
+    let tr ← s.tracks[t]?
+    some { s with tracks := s.tracks.push tr }
+  | _ => none
+
+def model? (N L YD : Nat) (m : String) : Option SModel :=
+  match m.splitOn "/" with
+  | [sS, sP, sQ] => do
+    let S ← (splitTok sS ';').mapM (fun e => if e == "e" then some [] else natList? e)
+    let P ← floatList? sP
+    let Q ← floatList? sQ
+    if S.length != N || S.any (·.any (· ≥ L)) || P.length != N * L * YD || Q.length != (N - 1) * L * L then none
+    else some { S := S, P := P, Q := Q }
+  | _ => none
+
+def feat? (N : Nat) (f : String) : Option (String × List (Cell Float)) :=
+  match f.splitOn ":" with
+  | [name, cs] => do
+    let cs ← cells? cs
+    if cs.length != N || name ∈ reserved then none else some (name, cs)
+  | _ => none
+
+def runSess (dims feats models steps : String) : String :=
+  match natList? dims with
+  | some [N, L, R, YD] =>
+    if N == 0 || L == 0 || R == 0 || YD == 0 then "bad-request" else
+    match (splitTok feats '|').mapM (feat? N), (splitTok models '@').mapM (model? N L YD) with
+    | some fs, some ms =>
+      if (fs.map (·.1)).eraseDups.length != fs.length then "bad-request" else
+      let s0 : Sess := { N := N, L := L, R := R, YD := YD, models := ms.toArray,
+                         tracks := #[{ size := N, cols := fs, pos := List.replicate N none }], objs := #[], outs := #[] }
+      match (splitTok steps '|').foldlM (fun s st => step s (st.splitOn ":")) s0 with
+      | none => "bad-request"
+      | some s =>
+        joinWith "|" s.outs.toList ++ "#" ++ joinWith "|" (s.tracks.toList.map showTrk) ++ "#" ++
+          joinWith "," (s.objs.toList.map (fun o => match o with | some o => showBool o.log | none => "x"))
+    | _, _ => "bad-request"
+  | _ => "bad-request"
+
 def handle (cmd : String) (args : List String) : String :=
   match cmd, args with
+  | "sess", [dims, feats, models, steps] => runSess dims feats models steps
   | "decodeQ", ["log", n, p, q] =>
     match natList? n, ratList? p, ratList? q with
     | some ns, some pf, some qf =>
